@@ -1,7 +1,7 @@
 (* C14: multiple-walker sharing combines every walker's data exactly once (statements only; proofs in
    SharedProofs.v, models in SharedModel.v). *)
 From Coq Require Import ZArith List Bool Permutation.
-From CV Require Import C14.SharedModel C14.SharedProofs.
+From CV Require Import C14.SharedModel C14.SharedProofs C14.StepProofs.
 Import ListNotations.
 Local Open Scope Z_scope.
 
@@ -60,6 +60,29 @@ Theorem C14_abf_exchange_points_agree : forall (A : Type) (G : GrpOps A) freq t 
   In w (exchange G t ws) -> In w' (exchange G t ws) -> share_due freq t' w = share_due freq t' w'.
 Proof. exact abf_exchange_points_agree. Qed.
 Print Assumptions C14_abf_exchange_points_agree.
+
+(* The exchange round is not atomic in the code: every replica runs replica_share() at its own pace between
+   blocking receives and a barrier.  The protocol in small steps (SharedModel.sstep: a replica enters, replica 0
+   receives the deltas of 1, 2, .. in this order as they arrive, sends the combined grid, the others receive it,
+   the barrier opens; walkers outside the exchange go on sampling and restarting) refines the atomic round:
+   EVERY execution that the blocking calls allow and that ends with all replicas outside replica_share()
+   leaves the walkers exactly as the atomic model does on the projected trace (no law on the values needed). *)
+Theorem C14_abf_interleavings_refine : forall (A : Type) (G : GrpOps A) (n : nat) (acts : list (act (A:=A))) (s : net (A:=A)),
+  (1 <= n)%nat -> srun G acts (sinit G n) = Some s -> all_idle s = true ->
+  walkers_of s = run G false (project acts) (init G n).
+Proof. exact @interleavings_refine. Qed.
+Print Assumptions C14_abf_interleavings_refine.
+
+(* ... hence union-exactly-once for every such execution: when the barrier of a round opens, every walker
+   holds the sum of all samples all walkers were fed before entering that round, each exactly once. *)
+Theorem C14_abf_interleavings_union_once : forall (A : Type) (G : GrpOps A), GrpLaws G ->
+  forall n acts t s k (w : walker (A:=A)), (1 <= n)%nat ->
+  srun G (acts ++ [AFinish t]) (sinit G n) = Some s ->
+  nth_error (walkers_of s) k = Some w ->
+  forall i, wG w i = fed_union G n (project (acts ++ [AFinish t])) i /\
+            wL w i = fed_union G n (project (acts ++ [AFinish t])) i.
+Proof. exact interleavings_union_once. Qed.
+Print Assumptions C14_abf_interleavings_union_once.
 
 (* The code before the repair of read_state_data (last := G on restart) violated the statement:
    C14_abf_union_once with `run G true`:  a sample collected after the last exchange is lost by a restart. *)
@@ -155,6 +178,12 @@ Proof. vm_compute. auto. Qed.
 Example C14_ex_meta_restart : let w := fst (prun true true meta_w2 pinit) in
   w_reg w = true /\ exists m, m_sync m = false.
 Proof. split; [vm_compute; reflexivity|]. exists m_new. reflexivity. Qed.
+
+(* a 3-walker execution in which walker 1 enters the round first and walkers 0 and 2 go on sampling meanwhile *)
+Example C14_ex_interleaving : match srun Zgrp ex_acts (sinit Zgrp 3) with
+  | Some s => all_idle s = true /\ map (fun w => (wG w 0, wG w 1)) (walkers_of s) = [(7, 5); (7, 6); (7, 5)]
+  | None => False end.
+Proof. exact ex_acts_run. Qed.
 
 Example C14_ex_exchange_agree : exists w, In w (exchange Zgrp 4 (init Zgrp 3)).
 Proof. eexists. left. reflexivity. Qed.
